@@ -117,6 +117,7 @@ static bref_t step_bref(uintptr_t p, mi_page_t* hint) {
     if (!step_seg_ok(sg)) return r;
     mi_segment_t* seg = (mi_segment_t*)sg;
     size_t si = (p - sg) >> MI_SEGMENT_SLICE_SHIFT; if (si >= seg->slice_entries) si = 0;   /* (huge blocks: the first page) */
+    if (seg->kind == MI_SEGMENT_HUGE) si = seg->segment_info_slices;                       /* (a huge segment has one page, right behind its header; an over-aligned pointer lies deep inside it) */
     mi_slice_t* sl = &seg->slices[si]; sl = (mi_slice_t*)((uint8_t*)sl - sl->slice_offset);
     if ((uintptr_t)sl < (uintptr_t)&seg->slices[0] || (uintptr_t)sl >= (uintptr_t)&seg->slices[MI_SLICES_PER_SEGMENT + 1]) return r;
     page = (mi_page_t*)sl;
